@@ -30,7 +30,7 @@ class FrontendError(Exception):
 
 def emit_program(case: fam.Case, ports_cfg, outdir: str) -> Dict:
     """Build with the real Builder and write all files; returns a description of the program."""
-    m = fam.MODELS[case.model_i]
+    m = fam.MODELS_ALL[case.model_i]
     res = Builder().build(fam.make_configuration(case, ports_cfg))
     os.makedirs(outdir, exist_ok=True)
     names = []
